@@ -14,7 +14,7 @@ from concurrent.futures import ThreadPoolExecutor
 
 ROOT = os.path.dirname(os.path.dirname(os.path.abspath(__file__)))
 COQ = os.path.join(ROOT, "coq")
-HARNESS = os.path.join(ROOT, "harness")
+HARNESS = os.environ.get("VERIF_HARNESS") or os.path.join(ROOT, "harness")
 REPO = os.environ.get("VERIF_REPO", "/repo")
 sys.path.insert(0, os.path.join(ROOT, "tools"))
 
@@ -287,13 +287,14 @@ def main():
     seed = int(os.environ.get("VERIF_SEED", "20261001"))
     mod = importlib.import_module("props." + pid.lower())
     t0 = time.time()
-    work = os.path.join(ROOT, "work", pid)
+    work = os.path.join(os.environ.get("VERIF_WORK") or os.path.join(ROOT, "work"), pid)
+    evdir = os.environ.get("VERIF_EVIDENCE") or os.path.join(ROOT, "evidence")
     os.makedirs(work, exist_ok=True)
     os.makedirs(os.path.join(work, "replay"), exist_ok=True)
     if "--replay" not in argv:
         for fn in os.listdir(os.path.join(work, "replay")):
             os.remove(os.path.join(work, "replay", fn))
-    os.makedirs(os.path.join(ROOT, "evidence"), exist_ok=True)
+    os.makedirs(evdir, exist_ok=True)
     violations = []      # (replay_path, suffix)
     known_lines = []
     notes = []
@@ -370,7 +371,14 @@ def main():
                     corpus.append((o["case"][0], list(o["case"][1])))
                 except Exception:
                     pass
-    gen = [(op, [str(a) for a in args]) for (op, args) in mod.generate(rng, tier)]
+    pre = None
+    if hasattr(mod, "presample"):
+        pcs = [(op, [str(a) for a in args]) for (op, args) in mod.presample(rng, tier)]
+        pres = driver_eval(binary, pcs, work, "presample")
+        pre = [(c, r[0]) for c, r in zip(pcs, pres)]
+        gen = [(op, [str(a) for a in args]) for (op, args) in mod.generate(rng, tier, pre)]
+    else:
+        gen = [(op, [str(a) for a in args]) for (op, args) in mod.generate(rng, tier)]
     findings, fixed = load_known(pid)
     wit = []
     for e in findings + fixed:
@@ -405,7 +413,9 @@ def main():
             if bound is not None and peak > bound:
                 meets_spec = False
                 notes.append("peak memory %d > bound %d on %r" % (peak, bound, case))
-        if d == mi:
+        if mi == "*":
+            stats["unmodelled"] = stats.get("unmodelled", 0) + 1
+        elif d == mi:
             stats["agree"] += 1
         else:
             stats["corr_broken"] += 1
@@ -499,7 +509,7 @@ def main():
         "wall_s": round(time.time() - t0, 1),
         "violations": len(violations),
     }
-    with open(os.path.join(ROOT, "evidence", pid + ".json"), "w") as f:
+    with open(os.path.join(evdir, pid + ".json"), "w") as f:
         json.dump(ev, f, indent=1)
 
     for l in known_lines:
